@@ -309,8 +309,9 @@ def run (env : Env) (depth : Nat) (ro : Bool) (self : Addr) (w : World) (clogs :
       (tr ++ r.trace ++ [{ id := id, ok := r.ok, world := r.world }]) rest
   | .authcall id authorized authNonce target value body rest =>
     if roBlocked ro .authcall value then failWith w tr .writeProtection else
+    -- gasAuthCall (gas_table.go:369-371) warms the target before the opcode executes
     let r := authFrameK env depth ro authorized authNonce target value
-      (fun d ro' self' w' => run env d ro' self' w' [] [] body) w
+      (fun d ro' self' w' => run env d ro' self' w' [] [] body) (w.addAccess target)
     run env depth ro self r.world (clogs ++ r.logs)
       (tr ++ r.trace ++ [{ id := id, ok := r.ok, world := r.world }]) rest
   | .stake amount rest =>
